@@ -3,6 +3,7 @@ CONSTANTS
   Mode = "window"
   MCFields = {"time_begin"}
   MCValues = {"a"}
+  MCSub = ""
   MaxSets = 0
   WMax = 8
   TMax = 8
